@@ -15,23 +15,24 @@ open Dawgs.C07 Dawgs.C07.Inst Dawgs.C08 Dawgs.Grammar Driver
 def T : Tables := Dawgs.C08.Inst.T
 
 /-- walk with the listener model; record flagged pairs that are not below another flagged pair or an error-reporting rule -/
-partial def iwalk : Tree → St × Nat × List String → Except String (St × Nat × List String)
+partial def iwalk (nth : Nat) : Tree → St × Nat × List String → Except String (St × Nat × List String)
   | .node r kids, (st, sup, acc) =>
     let topV := (st.stack.headD (0, 0)).1
-    -- "!<rule>" entries: the active visitor's own method reports the rule as unsupported (counted with the unsupported errors)
-    let acc := if T.unsupM.contains (topV, r) then acc ++ ["!" ++ ruleName r] else acc
+    -- "!<rule>" entries: the active visitor's own method reports the rule as unsupported (counted with the unsupported errors);
+    -- `nth`: number of earlier siblings of the same rule (methods that report from the second occurrence on)
+    let acc := if T.unsupM.contains (topV, r) || (nth ≥ 1 && T.unsupAfter.contains (topV, r)) then acc ++ ["!" ++ ruleName r] else acc
     let stopHere := sup == 0 && C.stops (topV, r)
     let acc := if sup == 0 && C.flagged (topV, r) then acc ++ [typeName topV ++ "@" ++ ruleName r] else acc
     let sup' := if sup > 0 || stopHere then sup + 1 else 0
     match T.enterRule r kids st with
     | .error e => .error e
     | .ok st1 =>
-      let rec go : List Tree → St × Nat × List String → Except String (St × Nat × List String)
+      let rec go (seen : List Nat) : List Tree → St × Nat × List String → Except String (St × Nat × List String)
         | [], s => .ok s
-        | k :: ks, s => match iwalk k s with
+        | k :: ks, s => match iwalk (match k.rootRule with | some x => seen.count x | none => 0) k s with
           | .error e => .error e
-          | .ok s1 => go ks s1
-      match go kids (st1, sup', acc) with
+          | .ok s1 => go (match k.rootRule with | some x => x :: seen | none => seen) ks s1
+      match go [] kids (st1, sup', acc) with
       | .error e => .error e
       | .ok (st2, _, acc2) =>
         match T.exitRule r kids st2 with
@@ -52,7 +53,9 @@ partial def shapes (t : Tree) : List String :=
       (if name == "oC_MapLiteral" &&
           (let ks := (kidsOfRule N t "oC_PropertyKeyName").map (fun k => unescapeKey (getText 100000 k)); ks.eraseDups.length != ks.length)
         then ["MapLiteralVisitor:duplicate-key-keeps-last"] else []) ++
-      (if name == "oC_PropertyExpression" && (kidsOfRule N t "oC_PropertyLookup").length ≥ 2 then ["PropertyExpressionVisitor:chained-lookup-keeps-last-key"] else [])
+      (if name == "oC_PropertyExpression" && (kidsOfRule N t "oC_PropertyLookup").length ≥ 2 then ["PropertyExpressionVisitor:chained-lookup-keeps-last-key"] else []) ++
+      (if name == "oC_PropertyExpression" && (match kidOfRule N t "oC_Atom" with | some a => hasTok N a "COUNT" | none => false)
+        then ["PropertyExpressionVisitor:count-star-atom-left-nil"] else [])
     -- repaired shapes (status fixed): recognised last, so that a regression gets its specific key without masking a known one
     let repaired : List String :=
       (if name == "oC_DoubleLiteral" then ["format.formatLiteral:float-reformatted"] else []) ++
@@ -92,14 +95,20 @@ def step (_ : Unit) (ts : List String) : Unit × String :=
     | some [.atom "tree", sx] =>
       match Driver.C08.toTree sx with
       | some t =>
-        let walked := match iwalk t (T.init, 0, []) with
+        let walked := match iwalk 0 t (T.init, 0, []) with
           | .ok (_, _, acc) => acc
           | .error _ => ["<panic>"]
         let vuns := (walked.filter (·.startsWith "!")).map (fun s => (s.drop 1).toString)
         let unsup := t.rules.flatMap (fun r => List.replicate (Dawgs.C08.Inst.E.unsupErrCount r) (ruleName r)) ++ vuns
         let ign := (walked.filter (fun s => !(s.startsWith "!"))).eraseDups
         let shAll := (shapes t).eraseDups
-        let isRepaired (x : String) : Bool := x == "format.formatLiteral:float-reformatted" || x == "format.KindMatcher:multiple-labels-printed-as-disjunction"
+        -- shapes whose defect is repaired are listed last, so that a rejection is attributed to a shape that is still live
+        let isRepaired (x : String) : Bool := x == "format.formatLiteral:float-reformatted" || x == "format.KindMatcher:multiple-labels-printed-as-disjunction" ||
+          (Repair.namespaceDot && x == "format.FunctionInvocation:namespace-separator-missing") ||
+          (Repair.exactHops && x == "oC_RangeLiteral:exact-hops-read-as-lower-bound") ||
+          (Repair.nestedNot && x == "oC_NotExpression:repeated-NOT-collapsed") ||
+          (Repair.spNotOperator && x == "ArithmeticExpressionVisitor:non-blank-SP-read-as-operator") ||
+          (Repair.chainedLookupRejected && x == "PropertyExpressionVisitor:chained-lookup-keeps-last-key")
         let sh := shAll.filter (fun x => !(isRepaired x)) ++ shAll.filter isRepaired
         let (b, m, e) := match build N t with
           | .ok q =>
